@@ -76,6 +76,7 @@ def operandOk (a : Arch) : FieldKind → Operand → Bool
   | .loc, .num v => decide (v < 2 ^ a.locBits)
   | .locO, .num v => decide (v < 2 ^ a.width .locO)
   | .const w, .num v => decide (v < 2 ^ w)
+  | .so kind short, .so s k => decide (s = short ∧ k < a.sharedNum kind)
   | _, _ => false
 
 def operandsOk (a : Arch) : List FieldKind → List Operand → Bool
